@@ -1,3 +1,4 @@
 pub mod resp;
 pub mod deflate;
 pub mod req;
+pub mod uri;
